@@ -470,7 +470,13 @@ pub fn register_upvalue<T>(
                 // if there is an existing upvalue to this location reuse that
                 c.upvalues.push(NonNull::new_unchecked(upvalue));
             } else {
+                let next = upvalue;
                 let upvalue = vm.init_upvalue(location)?;
+                // the upvalues of the lower stack slots stay in the list, behind the new one
+                (*upvalue.0.as_ptr())
+                    .as_upvalue_mut()
+                    .expect("init_upvalue returns an upvalue")
+                    .next = next;
 
                 // keep the open upvalues sorted
                 match prev_upvalue.as_mut().and_then(|u| u.as_upvalue_mut()) {
